@@ -257,6 +257,8 @@ class Evaluator:
         # identity wrappers
         if callee in self.identity and args:
             return args[0]
+        if args and callee.split("::")[-1] in ("copied", "cloned") and (callee.startswith("std::option::Option") or callee.startswith("std::iter::Iterator") or callee.startswith("core::")):
+            return args[0]
         # bounded inlining of small local functions
         fn = self.crate.fns.get(callee)
         if fn is not None and "hir" in fn and "trait_default" not in fn and ctx["depth"] < self.max_inline and self.inline_pred(callee, fn):
